@@ -75,7 +75,7 @@ def run(tier, seed, replay=None):
     c["generator_distribution"] = hist
     c["exhaustive"] = True
     c["rule"] = ("to_future and to_stream over a subject: every sequence of <= %d labels over {next 1, next 2, complete, error, poll} with at most two "
-                 "terminals, the polls placed before, between and after the source's calls; observation: every Poll result; to_stream consumed by a task that polls until Pending whenever it is woken, the wake-ups arriving "
+                 "terminals, the polls placed before, between and after the source's calls, and sources of 255..258, 511..513 (to_future also 65535..65537) items then a terminal; observation: every Poll result; to_stream consumed by a task that polls until Pending whenever it is woken, the wake-ups arriving "
                  "synchronously inside the producer's calls (error() sends the error and then the end marker: the consumer runs in between); complete_status: the "
                  "three flag queries after every call (also with take(0..2) below it over a create() source: the flags follow the source's terminal), and one thread in wait_for_end with the terminal issued before it starts, between its look at "
                  "the flag and its registering the waker (through the hook: the lost-wake-up window), or after it has gone to sleep; observation: "
